@@ -259,6 +259,9 @@ func (p *parser) parseObjectPropertyKey() (string, string) {
 		// null, false, class, etc.
 		if matchIdentifier.MatchString(literal) {
 			value = literal
+		} else {
+			// A punctuator, an illegal token or the end of input is not a PropertyName.
+			p.error(idx, errUnexpectedToken, tkn)
 		}
 	}
 	return literal, value
